@@ -132,9 +132,9 @@ Print Assumptions C07_seid_depends_on_first_draws_only.
 (* an accepted establishment: every PDR handed to the datapath carries the UP F-SEID of the
    response; the Created PDRs of the response are exactly the CHOOSE PDRs handed to the datapath,
    with the same id, TEID and address; that address is the access IP and the TEID is non-zero *)
-Theorem C07_programmed : forall retries access draws aok dok ps c g l created batch c' g',
+Theorem C07_programmed : forall retries access draws aok dok ps st i g l created batch j g',
   offset g < MAXV /\ NoDup (used g) /\ Forall (fun o => o < MAXV) (used g) ->
-  establish retries access draws aok dok ps c g = (EAccepted l created batch, c', g') ->
+  establish retries access draws aok dok ps st i g = (EAccepted l created batch, j, g') ->
   Forall (fun e => d_fseid e = l) batch /\
   map d_id batch = map cp_id ps /\
   (forall pid t ip, In (pid, t, ip) created <->
@@ -145,32 +145,48 @@ Print Assumptions C07_programmed.
 
 (* ... its F-SEID is non-zero and not stored on its association, its TEIDs are pairwise distinct,
    were not live before and are live afterwards *)
-Theorem C07_established_ids_fresh : forall retries access draws aok dok ps c g l created batch c' g',
+Theorem C07_established_ids_fresh : forall retries access draws aok dok ps st i g l created batch j g',
   offset g < MAXV /\ NoDup (used g) /\ Forall (fun o => o < MAXV) (used g) ->
-  establish retries access draws aok dok ps c g = (EAccepted l created batch, c', g') ->
-  (l <> 0 /\ ~ In l (store c) /\ store c' = l :: store c) /\
+  establish retries access draws aok dok ps st i g = (EAccepted l created batch, j, g') ->
+  (l <> 0 /\ ~ In l st) /\
   NoDup (map (fun x => snd (fst x)) created) /\
   Forall (fun t => 1 <= t <= MAXV /\ ~ In t (live_ids g) /\ In t (live_ids g'))
          (map (fun x => snd (fst x)) created).
 Proof. exact c07_est_ids. Qed.
 Print Assumptions C07_established_ids_fresh.
 
-Theorem C07_seid_refusal_writes_nothing : forall retries access draws dok ps c g,
-  (forall k, (drawn c <= k < drawn c + retries)%nat -> bad_draw (store c) (draws k) = true) ->
-  establish retries access draws true dok ps c g =
-  (ERefused CAUSE_NO_RESOURCES None, Conn (store c) (drawn c + retries), g).
+Theorem C07_seid_refusal_writes_nothing : forall retries access draws dok ps st i g,
+  (forall k, (i <= k < i + retries)%nat -> bad_draw st (draws k) = true) ->
+  establish retries access draws true dok ps st i g =
+  (ERefused CAUSE_NO_RESOURCES None, (i + retries)%nat, g).
 Proof. exact establish_seid_refusal. Qed.
 Print Assumptions C07_seid_refusal_writes_nothing.
 
+(* a refused establishment releases exactly the TEIDs it had chosen: the live set is as before *)
+Theorem C07_refusal_restores_live_teids : forall retries access draws aok dok ps st i g cause b j g',
+  offset g < MAXV /\ NoDup (used g) /\ Forall (fun o => o < MAXV) (used g) ->
+  establish retries access draws aok dok ps st i g = (ERefused cause b, j, g') ->
+  forall id, In id (live_ids g') <-> In id (live_ids g).
+Proof. exact c07_refused_restores. Qed.
+Print Assumptions C07_refusal_restores_live_teids.
+
 (* all histories of establishments / deletions over any number of associations sharing one
-   generator, all draw streams: each association's stored SEIDs stay pairwise distinct and
-   non-zero, the generator stays in the class for which the TEID theorems hold *)
+   generator, all draw streams, all datapath answers: per association the live sessions' SEIDs are
+   pairwise distinct and non-zero; no TEID belongs to two live sessions (of any association);
+   every TEID of a live session is marked used, so Allocate cannot hand it out again
+   (C07_teid_fresh); the generator stays in the class of the TEID theorems *)
 Theorem C07_history_invariant : forall retries access (draws : nat -> stream) es w,
   (offset (w_gen w) < MAXV /\ NoDup (used (w_gen w)) /\ Forall (fun o => o < MAXV) (used (w_gen w))) /\
-  Forall (fun c => NoDup (store c) /\ ~ In 0 (store c)) (w_conns w) ->
+  NoDup (map (fun s => (s_conn s, s_seid s)) (w_sess w)) /\
+  Forall (fun s => s_seid s <> 0) (w_sess w) /\
+  NoDup (all_teids (w_sess w)) /\
+  incl (all_teids (w_sess w)) (live_ids (w_gen w)) ->
   let w' := fst (ev_run retries access draws w es) in
   (offset (w_gen w') < MAXV /\ NoDup (used (w_gen w')) /\ Forall (fun o => o < MAXV) (used (w_gen w'))) /\
-  Forall (fun c => NoDup (store c) /\ ~ In 0 (store c)) (w_conns w').
+  NoDup (map (fun s => (s_conn s, s_seid s)) (w_sess w')) /\
+  Forall (fun s => s_seid s <> 0) (w_sess w') /\
+  NoDup (all_teids (w_sess w')) /\
+  incl (all_teids (w_sess w')) (live_ids (w_gen w')).
 Proof. exact ev_run_inv. Qed.
 Print Assumptions C07_history_invariant.
 
@@ -203,12 +219,33 @@ Example C07_seid_examples :
   new_seid MAX_RETRIES (fun i => nth i [0; 7; 0; 7; 11] 5) 3 [9; 7] = (Some 11, 5%nat).
 Proof. split; vm_compute; reflexivity. Qed.
 
-(* an accepted establishment with two CHOOSE PDRs and one CP-provided F-TEID at the wrap point *)
+(* an accepted establishment with two CHOOSE PDRs and one CP-provided F-TEID at the wrap point;
+   the same request refused by the datapath rolls the two TEIDs back (the cursor stays advanced) *)
 Example C07_establish_example :
   establish MAX_RETRIES 3232235777 (fun i => nth i [0; 5; 6] 0) true true
     [CPdr 1 true true 0 0; CPdr 2 true false 77 167772161; CPdr 3 true true 0 0]
-    (Conn [5] 0) (Gen 4294967294 [0]) =
+    [5] 0 (Gen 4294967294 [0]) =
   (EAccepted 6 [(1, 4294967295, 3232235777); (3, 2, 3232235777)]
      [DPdr 6 1 4294967295 3232235777 true; DPdr 6 2 77 167772161 false; DPdr 6 3 2 3232235777 true],
-   Conn [6; 5] 3, Gen 2 [1; 4294967294; 0]).
-Proof. vm_compute. reflexivity. Qed.
+   3%nat, Gen 2 [1; 4294967294; 0]) /\
+  snd (establish MAX_RETRIES 3232235777 (fun i => nth i [0; 5; 6] 0) true false
+    [CPdr 1 true true 0 0; CPdr 2 true false 77 167772161; CPdr 3 true true 0 0]
+    [5] 0 (Gen 4294967294 [0])) = Gen 2 [0].
+Proof. split; vm_compute; reflexivity. Qed.
+
+(* a history over two associations: the second association draws the SEID the first one holds
+   (allowed: SEIDs are per association), both sessions get distinct TEIDs; deleting the first
+   session releases its TEID, which is handed out again only after the cursor comes round *)
+Example C07_history_example :
+  let w0 := World [] (fun _ => 0%nat) (Gen 4294967294 []) in
+  let draws := fun k : nat => fun i : nat => 5 in
+  let r := ev_run MAX_RETRIES 3232235777 draws w0
+     [EvEst 0 true true [CPdr 1 true true 0 0]; EvEst 1 true true [CPdr 1 true true 0 0];
+      EvEst 1 true true [CPdr 1 true true 0 0]; EvDel 0 5; EvEst 0 true true [CPdr 1 true true 0 0]] in
+  snd r = [Some (EAccepted 5 [(1, 4294967295, 3232235777)] [DPdr 5 1 4294967295 3232235777 true]);
+           Some (EAccepted 5 [(1, 1, 3232235777)] [DPdr 5 1 1 3232235777 true]);
+           Some (ERefused CAUSE_NO_RESOURCES None);
+           None;
+           Some (EAccepted 5 [(1, 2, 3232235777)] [DPdr 5 1 2 3232235777 true])] /\
+  w_sess (fst r) = [Sess 0 5 [2]; Sess 1 5 [1]] /\ w_gen (fst r) = Gen 2 [1; 0].
+Proof. cbv zeta. repeat split; vm_compute; reflexivity. Qed.
